@@ -38,7 +38,16 @@ func (x *Exec) callWithArgs(fr *frame, cc *ssa.CallCommon, fnv sval, args []sval
 	var argTypes []types.Type
 	if cc.IsInvoke() {
 		key = cc.Method.FullName()
-		// canonical "(pkg.Iface).Method"
+		// prefer the static type of the receiver: methods of aliased anonymous
+		// interfaces (corestore.KVStore, Batch, Iterator) print as "(interface).M"
+		k2 := "(" + cc.Value.Type().String() + ")." + cc.Method.Name()
+		if x.errflow {
+			if _, ok := x.eng.errflow[k2]; ok {
+				key = k2
+			}
+		} else if _, ok := x.eng.contracts[k2]; ok {
+			key = k2
+		}
 		allArgs = append([]sval{fnv}, args...)
 		argTypes = append(argTypes, cc.Value.Type())
 		for i := 0; i < sig.Params().Len(); i++ {
@@ -54,6 +63,12 @@ func (x *Exec) callWithArgs(fr *frame, cc *ssa.CallCommon, fnv sval, args []sval
 		if callee == nil {
 			x.note("call of unknown function value in " + fr.fn.String())
 			x.curTaint = true
+			if x.errflow {
+				// a callback: like any function of the library it may hit a storage
+				// failure, which it then reports through its error result (closures
+				// are checked against that generic contract themselves)
+				return x.genericErrflowCall(sig, st, reach)
+			}
 			nst := x.havocForWrites(st, &WriteSet{Top: true}, "dynamic call")
 			return x.freshResults(sig, nst, reach), nst
 		}
@@ -66,6 +81,9 @@ func (x *Exec) callWithArgs(fr *frame, cc *ssa.CallCommon, fnv sval, args []sval
 			argTypes = append(argTypes, p.Type())
 		}
 	}
+	if x.errflow {
+		return x.errflowCall(fr, cc, key, callee, fnv, allArgs, argTypes, sig, st, reach, pos)
+	}
 	ct := x.eng.contracts[key]
 	if ct == nil && callee != nil && callee.Synthetic != "" {
 		// wrapper / bound method / promoted method: inline
@@ -73,7 +91,7 @@ func (x *Exec) callWithArgs(fr *frame, cc *ssa.CallCommon, fnv sval, args []sval
 	if ct != nil && !ct.Inline {
 		return x.applyContract(fr, ct, callee, allArgs, argTypes, sig, st, reach, pos, key, fnv)
 	}
-	if callee != nil && len(callee.Blocks) > 0 && fr.depth < maxInlineDepth && !x.onStack(callee) {
+	if callee != nil && len(callee.Blocks) > 0 && fr.depth < maxInlineDepth && !x.onStack(callee) && inRepoFn(callee) {
 		return x.inline(fr, callee, fnv, allArgs, st, reach)
 	}
 	// no contract and not inlinable
@@ -85,6 +103,123 @@ func (x *Exec) callWithArgs(fr *frame, cc *ssa.CallCommon, fnv sval, args []sval
 	x.curTaint = true
 	nst := x.havocForWrites(st, &WriteSet{Top: true}, why)
 	return x.freshResults(sig, nst, reach), nst
+}
+
+// errflowCall: calls in error-flow mode.
+func (x *Exec) errflowCall(fr *frame, cc *ssa.CallCommon, key string, callee *ssa.Function, fnv sval, args []sval, argTypes []types.Type, sig *types.Signature, st *State, reach string, pos token.Pos) (sval, *State) {
+	if ct := x.eng.errflow[key]; ct != nil {
+		mod := map[string]bool{}
+		for _, m := range ct.Modifies {
+			g := strings.TrimSpace(m)
+			if i := strings.Index(g, "["); i > 0 {
+				g = g[:i]
+			}
+			mod[g] = true
+		}
+		mod["parked"] = true // fresh iterators may be created; old entries are framed below
+		pre := x.contractEnv(ct, callee, args, argTypes, nil, nil, st, nil, fnv)
+		pre.old = st
+		old := st
+		nst := x.havocHeapKeepGhosts(st, mod)
+		// frames of the modified ghosts (locations given in the modifies clause)
+		ws := &WriteSet{Comps: map[string]bool{}}
+		for g := range mod {
+			ws.add("G_" + g)
+		}
+		x.frameFacts(ct, pre, ws, old, nst, reach, false, "")
+		res := x.freshResults(sig, nst, reach)
+		var rs []sval
+		var rts []types.Type
+		if sig.Results().Len() == 1 {
+			rs = []sval{res}
+		} else {
+			rs = res.tup
+		}
+		for i := 0; i < sig.Results().Len(); i++ {
+			rts = append(rts, sig.Results().At(i).Type())
+		}
+		post := x.contractEnv(ct, callee, args, argTypes, rs, rts, nst, old, fnv)
+		for _, e := range ct.Ensures {
+			if e.Internal {
+				continue
+			}
+			t, err := post.trClause(e.Text)
+			if err != nil {
+				x.eng.specError(e, err)
+				continue
+			}
+			x.assume(reach, t)
+		}
+		return res, nst
+	}
+	inRepo := callee != nil && len(callee.Blocks) > 0 && callee.Pkg != nil && strings.HasPrefix(callee.Pkg.Pkg.Path(), "github.com/cosmos/iavl")
+	if callee != nil && callee.Parent() != nil && len(callee.Blocks) > 0 {
+		inRepo = true // closure of a repository function
+	}
+	if !inRepo {
+		// external or unknown code: no storage access of its own
+		nst := x.havocHeapKeepGhosts(st, nil)
+		res := x.freshResults(sig, nst, reach)
+		switch key {
+		case "errors.New", "fmt.Errorf", "errors.Join":
+			x.assume(reach, "(not (= "+res.t+" 0))")
+		}
+		return res, nst
+	}
+	// small helpers without calls are inlined; others use the generic contract
+	if fr.depth < 2 && !x.onStack(callee) && len(callee.Blocks) <= 3 && callee.Synthetic == "" && !hasLoop(callee) {
+		return x.inline(fr, callee, fnv, args, st, reach)
+	}
+	if callee.Synthetic != "" && fr.depth < 3 && !x.onStack(callee) {
+		return x.inline(fr, callee, fnv, args, st, reach) // wrappers / bound methods
+	}
+	return x.genericErrflowCall(sig, st, reach)
+}
+
+// genericErrflowCall: the generic error-flow contract at a call site.
+func (x *Exec) genericErrflowCall(sig *types.Signature, st *State, reach string) (sval, *State) {
+	nst := x.havocHeapKeepGhosts(st, map[string]bool{"fault": true, "parked": true})
+	res := x.freshResults(sig, nst, reach)
+	oldF, newF := st.get("G_fault"), nst.get("G_fault")
+	// the generic contract: parked changes only at objects allocated by the callee
+	x.assume(reach, "(forall ((r! Int)) (! (=> (and (< 0 r!) (< r! "+st.na+")) (= (select "+nst.get("G_parked")+" r!) (select "+st.get("G_parked")+" r!))) :pattern ((select "+nst.get("G_parked")+" r!))))")
+	x.assume(reach, "(=> "+oldF+" "+newF+")")
+	errIdx := -1
+	for i := 0; i < sig.Results().Len(); i++ {
+		if types.Identical(sig.Results().At(i).Type(), types.Universe.Lookup("error").Type()) {
+			errIdx = i
+		}
+	}
+	if errIdx >= 0 {
+		et := res.t
+		if sig.Results().Len() > 1 {
+			et = res.tup[errIdx].t
+		}
+		x.assume(reach, "(=> (and (not "+oldF+") "+newF+") (not (= "+et+" 0)))")
+	} else {
+		x.assume(reach, "(= "+newF+" "+oldF+")")
+	}
+	return res, nst
+}
+
+func inRepoFn(f *ssa.Function) bool {
+	for g := f; g != nil; g = g.Parent() {
+		if g.Pkg != nil {
+			return strings.HasPrefix(g.Pkg.Pkg.Path(), "github.com/cosmos/iavl")
+		}
+	}
+	return false
+}
+
+func hasLoop(fn *ssa.Function) bool {
+	for _, b := range fn.Blocks {
+		for _, s := range b.Succs {
+			if s.Dominates(b) {
+				return true
+			}
+		}
+	}
+	return false
 }
 
 func (x *Exec) onStack(f *ssa.Function) bool {
@@ -583,6 +718,12 @@ func (x *Exec) frameFacts(ct *Contract, env *Env, ws *WriteSet, old, nw *State, 
 	}
 }
 
+func (x *Exec) frameCasesOnly(ct *Contract, posts []*Env, st0 *State, only string) {
+	x.frameOnly = only
+	x.frameCases(ct, posts, st0)
+	x.frameOnly = ""
+}
+
 // frameCases checks the function's frame at every return site.
 func (x *Exec) frameCases(ct *Contract, posts []*Env, st0 *State) {
 	if len(posts) == 0 {
@@ -602,6 +743,9 @@ func (x *Exec) frameCases(ct *Contract, posts []*Env, st0 *State) {
 	sort.Strings(comps)
 	for _, c := range comps {
 		if _, ok := x.so.comps[c]; !ok {
+			continue
+		}
+		if x.frameOnly != "" && c != x.frameOnly {
 			continue
 		}
 		var cases []oblCase
@@ -689,7 +833,12 @@ func (x *Exec) execBuiltin(fr *frame, b *ssa.Builtin, cc *ssa.CallCommon, args [
 	}
 	x.note("unmodelled builtin " + b.Name())
 	x.curTaint = true
-	nst := x.havocForWrites(st, &WriteSet{Top: true}, "builtin")
+	var nst *State
+	if x.errflow {
+		nst = x.havocHeapKeepGhosts(st, nil)
+	} else {
+		nst = x.havocForWrites(st, &WriteSet{Top: true}, "builtin")
+	}
 	return x.freshResults(cc.Signature(), nst, reach), nst
 }
 
@@ -977,6 +1126,10 @@ func (e *Engine) scanWrites(fn *ssa.Function, blocks []*ssa.BasicBlock) *WriteSe
 			ws.add(so.globalComp(a.Pkg.Pkg.Path()+"."+a.Name(), a.Type().(*types.Pointer).Elem()))
 		default:
 			et := v.Type().Underlying().(*types.Pointer).Elem()
+			if al, ok := v.(*ssa.Alloc); ok && !al.Heap && isScalarCell(et) {
+				ws.add("L?" + sanitize(al.Parent().Name()) + "_" + al.Name())
+				return
+			}
 			switch u := et.Underlying().(type) {
 			case *types.Struct:
 				ws.add(so.structComp(et))
@@ -998,9 +1151,16 @@ func (e *Engine) scanWrites(fn *ssa.Function, blocks []*ssa.BasicBlock) *WriteSe
 					if g, ok := e.onStore[so.structComp(pt)+"."+si.Fields[fa.Field].Acc]; ok {
 						ws.add("G_" + g)
 					}
+					if g, ok := e.onStoreFlag[so.structComp(pt)+"."+si.Fields[fa.Field].Acc]; ok {
+						ws.add("G_" + g)
+					}
 				}
 			case *ssa.Alloc:
 				et := t.Type().(*types.Pointer).Elem()
+				if !t.Heap && isScalarCell(et) {
+					ws.add("L?" + sanitize(t.Parent().Name()) + "_" + t.Name())
+					continue
+				}
 				switch u := et.Underlying().(type) {
 				case *types.Struct:
 					ws.add(so.structComp(et))
